@@ -510,6 +510,11 @@ struct Nego {
     QSet<int> lose;
     int lost = 0, relayed = 0;
     QJsonArray lostLog;
+    // PRIORITY attribute of the connectivity checks the agents send (distinct values per component)
+    QJsonArray reqPrio;
+    QSet<QString> reqPrioSeen;
+    QList<int> compIds;
+    int curComp = 0;
 
     explicit Nego(Ctx &c) : ctx(c) { }
     ~Nego()
@@ -548,6 +553,13 @@ struct Nego {
                 continue;  // not from the agent this relay leg belongs to
             }
             const Seen v = look(b);
+            if (v.stun && clsOf(v.type) == "request") {
+                const QString pk = QString("%1:%2:%3").arg(curComp).arg(v.hasPriority).arg(v.priority);
+                if (!reqPrioSeen.contains(pk)) {
+                    reqPrioSeen << pk;
+                    reqPrio.append(QJsonObject { { "comp", curComp }, { "has", v.hasPriority }, { "prio", int(v.priority) } });
+                }
+            }
             if (v.stun) {
                 const QByteArray k = v.id + QByteArray::number(v.type);
                 if (!firstSeen.contains(k)) {
@@ -568,6 +580,7 @@ struct Nego {
     void pumpAll()
     {
         for (int i = 0; i < rA.size(); i++) {
+            curComp = i < compIds.size() ? compIds[i] : 0;
             pump(rB[i], rA[i], portA[i], portB[i], "AB");  // A wrote to rB; B must see it coming from rA
             pump(rA[i], rB[i], portB[i], portA[i], "BA");
         }
@@ -627,6 +640,7 @@ struct Nego {
         for (const auto &c : b["comps"].toArray()) {
             comps << c.toInt();
         }
+        compIds = comps;
         for (const auto &x : b["lose"].toArray()) {
             lose << x.toInt();
         }
@@ -773,7 +787,7 @@ struct Nego {
                     { "selA", selOk(A, rB) }, { "selB", selOk(B, rA) },
                     { "nselA", A.selected.size() }, { "nselB", B.selected.size() },
                     { "attackerRx", attackerRx }, { "forged", nforged },
-                    { "lost", lost }, { "lostLog", lostLog }, { "relayed", relayed }, { "ms", int(t.elapsed()) } });
+                    { "lost", lost }, { "lostLog", lostLog }, { "reqPrio", reqPrio }, { "relayed", relayed }, { "ms", int(t.elapsed()) } });
 
         // application datagrams both ways, every component
         if (A.conn->isConnected() && B.conn->isConnected()) {
